@@ -346,7 +346,10 @@ def run_c06(t, tier, res):
     flavour = {"nonascii": t.chance(1, 3), "sites": t.chance(1, 2), "nonbmp": enc.startswith("utf-8") and t.chance(1, 8),
                "zoo": enc.startswith("utf-8") and t.chance(1, 5), "large": t.chance(1, 30 if tier == "quick" else 8), "encoding": enc}
     pws, opts = trainer.gen_list(t, flavour)
-    if t.chance(1, 3):
+    if t.chance(1, 12):
+        import math
+        opts["coverage"] = t.choice([0.9999999995, 0.999999999999, math.nextafter(1.0, 0.0), 1e-10, 5e-324])
+    elif t.chance(1, 3):
         opts["coverage"] = round(t.between(1, 99) / 100.0, 2)
     elif t.chance(1, 5):
         opts["coverage"] = t.choice([1e-06, 0.0001, 0.001, 0.999999])     # probabilities far below 1e-4 / Markov mass near 0
